@@ -1,5 +1,787 @@
+//! C11 — replacement rewrites exactly the first n matches and nothing else.
+//!
+//! System under simulation: `try_replacen` (both loops) and its panicking wrappers, over the real
+//! iterators and search layer, with a limit fault injected into a chosen search of the call.
+//! Oracle: an executable replace model built from the fault-free match sequence.
+
+use crate::c08::{self, IterFault, Item};
+use crate::c20::minimise_ast;
 use crate::common::*;
-use serde_json::Value;
-pub fn run(_opts: &Opts) -> i32 { 2 }
-pub fn replay(_case: &Value) -> Option<(String, String)> { None }
-pub fn digest(_seed: u64, _n: u64, _workers: usize) -> Vec<u64> { Vec::new() }
+use crate::gen::{self, GenCfg, Node};
+use crate::rng::{derive, Fnv, Rng};
+use fancy_regex::verif::{self, EndReason, RunStats};
+use fancy_regex::{Captures, NoExpand, Regex};
+use serde_json::{json, Value};
+use std::borrow::Cow;
+use std::collections::HashSet;
+
+pub const PROP: &str = "C11";
+
+/// Replacer kinds. `Tpl*` are templates built only from well-formed tokens the model can expand.
+#[derive(Clone, Debug, PartialEq, Eq)]
+pub enum Rep {
+    /// closure returning the whole match
+    Identity,
+    /// closure returning a constant
+    ConstClosure(String),
+    /// NoExpand(s)
+    NoExpand(String),
+    /// &str without `$`
+    Str(String),
+    /// String without `$`
+    OwnedString(String),
+    /// Cow<str> without `$`
+    CowStr(String),
+    /// template: list of tokens
+    Template(Vec<Tok>),
+}
+
+#[derive(Clone, Debug, PartialEq, Eq)]
+pub enum Tok {
+    Lit(String),
+    Dollar,
+    Group(usize),
+    Name(String, usize),
+}
+
+impl Rep {
+    fn to_json(&self) -> Value {
+        match self {
+            Rep::Identity => json!(["identity"]),
+            Rep::ConstClosure(s) => json!(["const", s]),
+            Rep::NoExpand(s) => json!(["noexpand", s]),
+            Rep::Str(s) => json!(["str", s]),
+            Rep::OwnedString(s) => json!(["string", s]),
+            Rep::CowStr(s) => json!(["cow", s]),
+            Rep::Template(t) => json!([
+                "template",
+                t.iter()
+                    .map(|t| match t {
+                        Tok::Lit(s) => json!(["lit", s]),
+                        Tok::Dollar => json!(["dollar"]),
+                        Tok::Group(n) => json!(["group", n]),
+                        Tok::Name(s, n) => json!(["name", s, n]),
+                    })
+                    .collect::<Vec<_>>()
+            ]),
+        }
+    }
+    fn from_json(v: &Value) -> Option<Rep> {
+        let a = v.as_array()?;
+        let s = |i: usize| a.get(i).and_then(|x| x.as_str()).map(|x| x.to_string());
+        Some(match a.first()?.as_str()? {
+            "identity" => Rep::Identity,
+            "const" => Rep::ConstClosure(s(1)?),
+            "noexpand" => Rep::NoExpand(s(1)?),
+            "str" => Rep::Str(s(1)?),
+            "string" => Rep::OwnedString(s(1)?),
+            "cow" => Rep::CowStr(s(1)?),
+            "template" => Rep::Template(
+                a.get(1)?
+                    .as_array()?
+                    .iter()
+                    .map(|t| {
+                        let t = t.as_array()?;
+                        Some(match t.first()?.as_str()? {
+                            "lit" => Tok::Lit(t.get(1)?.as_str()?.to_string()),
+                            "dollar" => Tok::Dollar,
+                            "group" => Tok::Group(t.get(1)?.as_u64()? as usize),
+                            "name" => Tok::Name(t.get(1)?.as_str()?.to_string(), t.get(2)?.as_u64()? as usize),
+                            _ => return None,
+                        })
+                    })
+                    .collect::<Option<Vec<_>>>()?,
+            ),
+            _ => return None,
+        })
+    }
+
+    fn template_string(toks: &[Tok]) -> String {
+        let mut s = String::new();
+        for t in toks {
+            match t {
+                Tok::Lit(l) => s.push_str(l),
+                Tok::Dollar => s.push_str("$$"),
+                Tok::Group(n) => s.push_str(&format!("${{{}}}", n)),
+                Tok::Name(n, _) => s.push_str(&format!("${{{}}}", n)),
+            }
+        }
+        s
+    }
+
+    /// true when try_replacen takes the find_iter fast path for this replacer
+    fn fast_path(&self) -> bool {
+        match self {
+            Rep::Identity | Rep::ConstClosure(_) => false,
+            Rep::NoExpand(_) | Rep::Str(_) | Rep::OwnedString(_) | Rep::CowStr(_) => true,
+            Rep::Template(t) => !Rep::template_string(t).contains('$'),
+        }
+    }
+
+    /// The model's idea of the replacer's output for one match.
+    fn expand(&self, text: &str, groups: &Groups) -> String {
+        let grp = |n: usize| -> &str {
+            match groups.get(n) {
+                Some(Some((s, e))) => &text[*s..*e],
+                _ => "",
+            }
+        };
+        match self {
+            Rep::Identity => grp(0).to_string(),
+            Rep::ConstClosure(s) | Rep::NoExpand(s) | Rep::Str(s) | Rep::OwnedString(s) | Rep::CowStr(s) => s.clone(),
+            Rep::Template(toks) => {
+                let mut out = String::new();
+                for t in toks {
+                    match t {
+                        Tok::Lit(l) => out.push_str(l),
+                        Tok::Dollar => out.push('$'),
+                        Tok::Group(n) => out.push_str(grp(*n)),
+                        Tok::Name(_, n) => out.push_str(grp(*n)),
+                    }
+                }
+                out
+            }
+        }
+    }
+}
+
+#[derive(Clone, Copy, Debug, PartialEq, Eq)]
+pub enum Entry {
+    TryReplacen,
+    Replacen,
+    Replace,
+    ReplaceAll,
+}
+
+impl Entry {
+    fn name(self) -> &'static str {
+        match self {
+            Entry::TryReplacen => "try_replacen",
+            Entry::Replacen => "replacen",
+            Entry::Replace => "replace",
+            Entry::ReplaceAll => "replace_all",
+        }
+    }
+    fn parse(s: &str) -> Option<Entry> {
+        Some(match s {
+            "try_replacen" => Entry::TryReplacen,
+            "replacen" => Entry::Replacen,
+            "replace" => Entry::Replace,
+            "replace_all" => Entry::ReplaceAll,
+            _ => return None,
+        })
+    }
+}
+
+/// (output, borrowed-from-input?)
+type RepOut = (String, bool);
+
+fn is_borrowed_of(c: &Cow<'_, str>, text: &str) -> bool {
+    match c {
+        Cow::Borrowed(b) => b.as_ptr() == text.as_ptr() && b.len() == text.len(),
+        Cow::Owned(_) => false,
+    }
+}
+
+fn call_real(re: &Regex, text: &str, n: usize, rep: &Rep, entry: Entry) -> Outcome<RepOut> {
+    macro_rules! go {
+        ($r:expr) => {
+            match entry {
+                Entry::TryReplacen => guarded(|| re.try_replacen(text, n, $r).map(|c| (c.to_string(), is_borrowed_of(&c, text)))),
+                Entry::Replacen => guarded_plain(|| {
+                    let c = re.replacen(text, n, $r);
+                    (c.to_string(), is_borrowed_of(&c, text))
+                }),
+                Entry::Replace => guarded_plain(|| {
+                    let c = re.replace(text, $r);
+                    (c.to_string(), is_borrowed_of(&c, text))
+                }),
+                Entry::ReplaceAll => guarded_plain(|| {
+                    let c = re.replace_all(text, $r);
+                    (c.to_string(), is_borrowed_of(&c, text))
+                }),
+            }
+        };
+    }
+    match rep {
+        Rep::Identity => go!(|c: &Captures<'_>| c.get(0).map(|m| m.as_str().to_string()).unwrap_or_default()),
+        Rep::ConstClosure(s) => go!(|_: &Captures<'_>| s.clone()),
+        Rep::NoExpand(s) => go!(NoExpand(s.as_str())),
+        Rep::Str(s) => go!(s.as_str()),
+        Rep::OwnedString(s) => go!(s.clone()),
+        Rep::CowStr(s) => go!(Cow::<str>::Owned(s.clone())),
+        Rep::Template(t) => {
+            let tpl = Rep::template_string(t);
+            go!(tpl.as_str())
+        }
+    }
+}
+
+/// Fault-free match sequence with all groups (from captures_iter) and spans (from find_iter).
+pub struct Matches {
+    pub find: Vec<Item>,
+    pub caps: Vec<Outcome<Groups>>,
+}
+
+fn fault_free_matches(re: &Regex, text: &str) -> Matches {
+    let find = c08::real_history(re, text, &None).items;
+    let cap = text.chars().count() + 3;
+    let mut caps = Vec::new();
+    let mut it = re.captures_iter(text);
+    while caps.len() < cap {
+        match guarded_plain(|| it.next()) {
+            Outcome::Ok(None) => break,
+            Outcome::Ok(Some(Ok(c))) => caps.push(Outcome::Ok(groups_of(&c))),
+            Outcome::Ok(Some(Err(e))) => {
+                caps.push(Outcome::Err(err_kind(&e)));
+                break;
+            }
+            Outcome::Panic(p) => {
+                caps.push(Outcome::Panic(p));
+                break;
+            }
+            Outcome::Err(_) => unreachable!(),
+        }
+    }
+    Matches { find, caps }
+}
+
+/// The statement, executable: gaps verbatim, first n matches (all if n = 0) replaced, tail verbatim;
+/// borrowed iff there is no match. None when the fault-free sequence itself errs or panics within
+/// the part try_replacen looks at (then only Err-vs-panic expectations apply).
+fn model(text: &str, m: &Matches, n: usize, rep: &Rep) -> Option<Outcome<RepOut>> {
+    // which prefix of the sequence does the call consume? items 0..=n (n > 0) or all (n = 0)
+    let spans: Vec<&Item> = m.find.iter().collect();
+    let consumed = if n == 0 { spans.len() } else { spans.len().min(n + 1) };
+    for it in &spans[..consumed] {
+        match it {
+            Item::Err(k) => return Some(Outcome::Err(k.clone())),
+            Item::Panic(_) => return None,
+            _ => {}
+        }
+    }
+    if spans.is_empty() {
+        return Some(Outcome::Ok((text.to_string(), true)));
+    }
+    let replaced = if n == 0 { spans.len() } else { spans.len().min(n) };
+    let mut out = String::new();
+    let mut last = 0;
+    for (i, it) in spans[..replaced].iter().enumerate() {
+        let Item::Match(s, e) = it else { return None };
+        let groups: Groups = match m.caps.get(i) {
+            Some(Outcome::Ok(g)) => g.clone(),
+            _ => {
+                if rep.fast_path() {
+                    vec![Some((*s, *e))]
+                } else {
+                    return None;
+                }
+            }
+        };
+        out.push_str(text.get(last..*s)?);
+        // the statement replaces the find_iter matches; the replacer sees "the corresponding
+        // captures", whose group 0 is that match
+        let mut g = groups;
+        if g.is_empty() {
+            g.push(Some((*s, *e)));
+        }
+        g[0] = Some((*s, *e));
+        out.push_str(&rep.expand(text, &g));
+        last = *e;
+    }
+    out.push_str(text.get(last..)?);
+    Some(Outcome::Ok((out, false)))
+}
+
+#[derive(Clone, Debug)]
+pub struct Case {
+    pub pattern: String,
+    pub text: String,
+    pub n: usize,
+    pub rep: Rep,
+    pub entry: Entry,
+    pub fault: Option<IterFault>,
+}
+
+impl Case {
+    fn to_json(&self) -> Value {
+        json!({
+            "kind": "c11",
+            "pattern": self.pattern,
+            "text": self.text,
+            "n": self.n,
+            "rep": self.rep.to_json(),
+            "entry": self.entry.name(),
+            "fault": self.fault.as_ref().map(|f| json!([f.j, f.kind, f.val])),
+        })
+    }
+    fn from_json(v: &Value) -> Option<Case> {
+        Some(Case {
+            pattern: v["pattern"].as_str()?.to_string(),
+            text: v["text"].as_str()?.to_string(),
+            n: v["n"].as_u64()? as usize,
+            rep: Rep::from_json(&v["rep"])?,
+            entry: Entry::parse(v["entry"].as_str()?)?,
+            fault: match &v["fault"] {
+                Value::Array(a) => Some(IterFault { j: a[0].as_u64()?, kind: a[1].as_str()?.to_string(), val: a[2].as_u64()? as usize }),
+                _ => None,
+            },
+        })
+    }
+}
+
+#[derive(Default, Clone, Debug)]
+pub struct Stats {
+    pub calls: u64,
+    pub model_compared: u64,
+    pub borrowed_results: u64,
+    pub owned_results: u64,
+    pub faults_configured: u64,
+    pub faults_fired: u64,
+    pub fault_on_replaced_match: u64,
+    pub fault_on_lookahead_match: u64,
+    pub equivalence_groups: u64,
+    pub wrappers_compared: u64,
+    pub vm_insns: u64,
+    pub digest: u64,
+}
+
+pub struct Found {
+    pub class: String,
+    pub detail: String,
+}
+
+struct Observed {
+    out: Outcome<RepOut>,
+    runs: Vec<RunStats>,
+}
+
+fn observe(re: &Regex, case: &Case) -> Observed {
+    verif::reset_run_ordinal();
+    verif::set_fault_plan(c08::plan_of(&case.fault));
+    verif::record_run_stats(true);
+    let out = call_real(re, &case.text, case.n, &case.rep, case.entry);
+    verif::set_fault_plan(Vec::new());
+    let runs = verif::take_run_stats();
+    verif::record_run_stats(false);
+    Observed { out, runs }
+}
+
+fn effective_n(case: &Case) -> usize {
+    match case.entry {
+        Entry::Replace => 1,
+        Entry::ReplaceAll => 0,
+        _ => case.n,
+    }
+}
+
+/// Check one call (fault-free or faulted) against the model.
+pub fn check_case(re: &Regex, case: &Case, m: &Matches, st: &mut Stats) -> Option<Found> {
+    let n = effective_n(case);
+    let o = observe(re, case);
+    st.calls += 1;
+    for r in &o.runs {
+        st.vm_insns += r.insns;
+    }
+    let mut d = Fnv(st.digest ^ 0x99);
+    d.str(&o.out.show());
+    st.digest = d.0;
+    let expect = model(&case.text, m, n, &case.rep);
+    let fired = case.fault.as_ref().map_or(false, |f| {
+        o.runs.iter().any(|r| r.ordinal == f.j && matches!(r.end, EndReason::BacktrackLimit | EndReason::StackOverflow))
+    });
+    if let Some(f) = &case.fault {
+        st.faults_configured += 1;
+        if fired {
+            st.faults_fired += 1;
+            if n > 0 && f.j >= n as u64 {
+                st.fault_on_lookahead_match += 1;
+            } else {
+                st.fault_on_replaced_match += 1;
+            }
+            let kind = if f.kind == "ble" { ErrKind::BacktrackLimit } else { ErrKind::StackOverflow };
+            return match (&o.out, case.entry) {
+                (Outcome::Err(k), Entry::TryReplacen) if *k == kind => None,
+                // the panicking wrappers document that they panic on a search error
+                (Outcome::Panic(_), e) if e != Entry::TryReplacen => None,
+                (other, _) => Some(Found {
+                    class: if matches!(other, Outcome::Panic(_)) { "search-error-panics".into() } else { "search-error-swallowed".into() },
+                    detail: format!("search #{} of {}(n={}) aborted with {:?} but the call returned {}", f.j, case.entry.name(), n, kind, other.show()),
+                }),
+            };
+        }
+    }
+    let Some(expect) = expect else { return None };
+    st.model_compared += 1;
+    match (&o.out, &expect) {
+        (Outcome::Ok((s, b)), Outcome::Ok((es, eb))) => {
+            if *b {
+                st.borrowed_results += 1
+            } else {
+                st.owned_results += 1
+            }
+            if s != es {
+                return Some(Found {
+                    class: "replace-differs-from-model".into(),
+                    detail: format!("{}({:?}, n={}, {:?}) returned {:?} ; model (find_iter matches {:?} replaced, rest verbatim) gives {:?}", case.entry.name(), case.text, n, case.rep, s, m.find, es),
+                });
+            }
+            if b != eb {
+                return Some(Found {
+                    class: "borrow-rule-broken".into(),
+                    detail: format!("{}({:?}, n={}) returned a {} result; it must borrow the input iff there is no match (matches: {:?})", case.entry.name(), case.text, n, if *b { "borrowed" } else { "owned" }, m.find),
+                });
+            }
+            None
+        }
+        (Outcome::Err(k), Outcome::Err(ek)) if k == ek => None,
+        (Outcome::Panic(_), Outcome::Err(_)) if case.entry != Entry::TryReplacen => None,
+        (a, b) => Some(Found {
+            class: if matches!(a, Outcome::Panic(_)) { "search-error-panics".into() } else { "replace-differs-from-model".into() },
+            detail: format!("{}({:?}, n={}, {:?}) returned {} ; model gives {}", case.entry.name(), case.text, n, case.rep, a.show(), b.show()),
+        }),
+    }
+}
+
+fn class_of(case: &Case) -> Option<(String, String)> {
+    let re = compile(&case.pattern)?;
+    let m = fault_free_matches(&re, &case.text);
+    let mut st = Stats::default();
+    check_case(&re, case, &m, &mut st).map(|f| (f.class, f.detail))
+}
+
+pub fn replay(case: &Value) -> Option<(String, String)> {
+    if case["kind"].as_str() == Some("c11-equivalence") {
+        return replay_equivalence(case);
+    }
+    class_of(&Case::from_json(case)?)
+}
+
+fn minimise(case: &Case, ast: Option<&Node>, class: &str) -> Case {
+    let mut cur = case.clone();
+    let same = |c: &Case| class_of(c).map_or(false, |(k, _)| k == class);
+    if cur.fault.is_some() {
+        let mut c = cur.clone();
+        c.fault = None;
+        if same(&c) {
+            cur = c;
+        }
+    }
+    loop {
+        let mut progressed = false;
+        for t in gen::text_shrinks(&cur.text) {
+            let mut c = cur.clone();
+            c.text = t;
+            if same(&c) {
+                cur = c;
+                progressed = true;
+                break;
+            }
+        }
+        if !progressed {
+            break;
+        }
+    }
+    if let Some(ast) = ast {
+        let base = cur.clone();
+        let small = minimise_ast(ast, &|p: &str| {
+            let mut c = base.clone();
+            c.pattern = p.to_string();
+            same(&c)
+        });
+        let mut c = cur.clone();
+        c.pattern = small.render();
+        if same(&c) {
+            cur = c;
+        }
+    }
+    cur
+}
+
+/// "a template without `$`, NoExpand of the same string and a closure returning it give identical
+/// results" — and so the fast and the slow path agree.
+fn equivalence(re: &Regex, text: &str, n: usize, s: &str) -> Option<Found> {
+    let reps = [
+        Rep::Str(s.to_string()),
+        Rep::OwnedString(s.to_string()),
+        Rep::CowStr(s.to_string()),
+        Rep::NoExpand(s.to_string()),
+        Rep::ConstClosure(s.to_string()),
+    ];
+    let outs: Vec<Outcome<RepOut>> = reps.iter().map(|r| call_real(re, text, n, r, Entry::TryReplacen)).collect();
+    for i in 1..outs.len() {
+        if outs[i] != outs[0] {
+            return Some(Found {
+                class: "replacer-kinds-disagree".into(),
+                detail: format!("try_replacen({:?}, n={}) with {:?} returned {} but with {:?} returned {}", text, n, reps[0], outs[0].show(), reps[i], outs[i].show()),
+            });
+        }
+    }
+    None
+}
+
+fn replay_equivalence(case: &Value) -> Option<(String, String)> {
+    let re = compile(case["pattern"].as_str()?)?;
+    equivalence(&re, case["text"].as_str()?, case["n"].as_u64()? as usize, case["s"].as_str()?).map(|f| (f.class, f.detail))
+}
+
+fn gen_rep(rng: &mut Rng, re: &Regex) -> Rep {
+    let consts = ["X", "", "yy", "é", "a"];
+    let c = rng.pick(&consts).to_string();
+    match rng.below(8) {
+        0 => Rep::Identity,
+        1 => Rep::ConstClosure(c),
+        2 => Rep::NoExpand(if rng.chance(1, 2) { format!("{}$1", c) } else { c }),
+        3 => Rep::Str(c),
+        4 => Rep::OwnedString(c),
+        5 => Rep::CowStr(c),
+        _ => {
+            let ngroups = re.captures_len();
+            let names: Vec<(String, usize)> = re
+                .capture_names()
+                .enumerate()
+                .filter_map(|(i, n)| n.map(|n| (n.to_string(), i)))
+                .collect();
+            let mut toks = Vec::new();
+            for _ in 0..rng.range(1, 4) {
+                toks.push(match rng.below(5) {
+                    0 => Tok::Lit(rng.pick(&["<", ">", "-", "é", " "]).to_string()),
+                    1 => Tok::Dollar,
+                    2 => Tok::Group(0),
+                    3 if !names.is_empty() => {
+                        let (n, i) = rng.pick(&names).clone();
+                        Tok::Name(n, i)
+                    }
+                    // an index up to one past the last group: absent groups expand to nothing
+                    _ => Tok::Group(rng.below(ngroups + 1)),
+                });
+            }
+            Rep::Template(toks)
+        }
+    }
+}
+
+fn gen_cfg(rng: &mut Rng) -> GenCfg {
+    let mut cfg = GenCfg::swarm(rng);
+    cfg.allow_keepout_in_look = false;
+    cfg.allow_cond_in_atomic = true;
+    cfg
+}
+
+struct JobOut {
+    st: Stats,
+    nontrivial_hashes: Vec<u64>,
+    sample: Option<Value>,
+}
+
+fn job(seed: u64, i: u64) -> (JobOut, Option<Violation>) {
+    let mut rng = Rng::new(derive(seed, i));
+    let mut out = JobOut { st: Stats::default(), nontrivial_hashes: Vec::new(), sample: None };
+    let cfg = gen_cfg(&mut rng);
+    for k in 0..4 {
+        let (pattern, ast) = if k == 0 && i % 2 == 0 {
+            (gen::CORPUS[((i / 2) as usize) % gen::CORPUS.len()].to_string(), None)
+        } else {
+            let ast = gen::gen_pattern(&mut rng, &cfg);
+            if ast.facts().keepout_in_look {
+                continue;
+            }
+            (ast.render(), Some(ast))
+        };
+        let Some(re) = compile(&pattern) else { continue };
+        for _ in 0..3 {
+            let text = gen::gen_text(&mut rng, 8);
+            let m = fault_free_matches(&re, &text);
+            if m.find.iter().any(|i| matches!(i, Item::Panic(_))) || m.caps.iter().any(|c| matches!(c, Outcome::Panic(_))) {
+                continue; // C05's business
+            }
+            let n = rng.below(4);
+            let rep = gen_rep(&mut rng, &re);
+            let entry = match rng.below(8) {
+                0 => Entry::Replacen,
+                1 => Entry::Replace,
+                2 => Entry::ReplaceAll,
+                _ => Entry::TryReplacen,
+            };
+            let mut case = Case { pattern: pattern.clone(), text: text.clone(), n, rep, entry, fault: None };
+            let mut found = check_case(&re, &case, &m, &mut out.st);
+            let nmatches = m.find.iter().filter(|i| matches!(i, Item::Match(..))).count();
+            let mut fired_any = false;
+            if found.is_none() && entry != Entry::TryReplacen {
+                out.st.wrappers_compared += 1;
+            }
+            // replacer-kind equivalence on the same input
+            if found.is_none() && rng.chance(1, 2) {
+                out.st.equivalence_groups += 1;
+                let s = rng.pick(&["X", "", "é-"]).to_string();
+                if let Some(f) = equivalence(&re, &text, n, &s) {
+                    let replay = json!({"kind": "c11-equivalence", "pattern": pattern, "text": text, "n": n, "s": s});
+                    return (out, Some(Violation::new(PROP, &f.class, f.detail, replay)));
+                }
+            }
+            // faults: pick searches of this very call (ordinals from a fault-free observation)
+            if found.is_none() {
+                let o = observe(&re, &case);
+                if !o.runs.is_empty() && matches!(o.out, Outcome::Ok(_)) {
+                    let nruns = o.runs.len();
+                    let mut js = vec![0, nruns - 1, rng.below(nruns)];
+                    js.sort();
+                    js.dedup();
+                    for j in js {
+                        let rs = o.runs[j];
+                        let mut fs = Vec::new();
+                        if rs.backtracks > 0 {
+                            fs.push(("ble", rng.below(rs.backtracks as usize)));
+                            fs.push(("ble", rs.backtracks as usize));
+                        }
+                        if rs.peak_depth > 0 {
+                            fs.push(("so", rng.below(rs.peak_depth)));
+                        }
+                        for (kind, val) in fs {
+                            case.fault = Some(IterFault { j: j as u64, kind: kind.to_string(), val });
+                            let before = out.st.faults_fired;
+                            found = check_case(&re, &case, &m, &mut out.st);
+                            if out.st.faults_fired > before {
+                                fired_any = true;
+                            }
+                            if found.is_some() {
+                                break;
+                            }
+                        }
+                        if found.is_some() {
+                            break;
+                        }
+                    }
+                }
+            }
+            if nmatches >= 1 || fired_any {
+                let mut h = Fnv::new();
+                h.str(&case.pattern);
+                h.str(&case.text);
+                h.u64(case.n as u64);
+                h.str(&format!("{:?}", case.rep));
+                out.nontrivial_hashes.push(h.0);
+                if out.sample.is_none() {
+                    out.sample = Some(json!({"pattern": case.pattern, "text": case.text, "n": case.n, "replacer": format!("{:?}", case.rep), "entry": case.entry.name(), "matches": format!("{:?}", m.find)}));
+                }
+            }
+            if let Some(f) = found {
+                let mc = minimise(&case, ast.as_ref(), &f.class);
+                let detail = class_of(&mc).map(|(_, d)| d).unwrap_or(f.detail);
+                return (out, Some(Violation::new(PROP, &f.class, detail, mc.to_json())));
+            }
+        }
+    }
+    (out, None)
+}
+
+fn add(a: &mut Stats, b: &Stats) {
+    a.calls += b.calls;
+    a.model_compared += b.model_compared;
+    a.borrowed_results += b.borrowed_results;
+    a.owned_results += b.owned_results;
+    a.faults_configured += b.faults_configured;
+    a.faults_fired += b.faults_fired;
+    a.fault_on_replaced_match += b.fault_on_replaced_match;
+    a.fault_on_lookahead_match += b.fault_on_lookahead_match;
+    a.equivalence_groups += b.equivalence_groups;
+    a.wrappers_compared += b.wrappers_compared;
+    a.vm_insns += b.vm_insns;
+}
+
+pub fn digest(seed: u64, n: u64, workers: usize) -> Vec<u64> {
+    let (res, _) = run_batch(n, workers, move |i| {
+        let (o, v) = job(seed, i);
+        let mut d = Fnv(o.st.digest);
+        d.u64(o.st.calls);
+        d.u64(v.is_some() as u64);
+        (d.0, None)
+    });
+    res.into_iter().map(|(_, d)| d).collect()
+}
+
+pub fn run(opts: &Opts) -> i32 {
+    let t0 = now();
+    let thorough = opts.tier == Tier::Thorough;
+    let n = if opts.budget > 0 { opts.budget } else if thorough { 2_000_000 } else { 30_000 };
+    let seed = opts.seed;
+    let (results, viol) = run_batch(n, opts.workers, move |i| job(seed, i));
+    let mut st = Stats::default();
+    let mut nt: HashSet<u64> = HashSet::new();
+    let mut samples = Vec::new();
+    for (_, r) in &results {
+        add(&mut st, &r.st);
+        nt.extend(r.nontrivial_hashes.iter());
+        if samples.len() < 4 {
+            if let Some(s) = &r.sample {
+                samples.push(s.clone());
+            }
+        }
+    }
+    let wall = t0.elapsed().as_secs_f64();
+    let mut code = 0;
+    let mut violations = 0;
+    if let Some((i, v)) = &viol {
+        violations = 1;
+        let path = write_replay(v, derive(seed, *i));
+        let again = replay(&v.replay);
+        if again.as_ref().map(|(c, _)| c.as_str()) != Some(v.class.as_str()) {
+            eprintln!("harness error: C11 violation did not reproduce on replay: {:?} vs {}", again, v.class);
+            return 2;
+        }
+        report_violation(v, &path);
+        code = 1;
+    }
+    if samples.is_empty() {
+        samples.push(json!("no non-trivial call in this run"));
+    }
+    if opts.write_evidence {
+        let mut extra = serde_json::Map::new();
+        extra.insert("replace_calls".into(), json!(st.calls));
+        extra.insert("compared_with_model".into(), json!(st.model_compared));
+        extra.insert("faults".into(), json!({
+            "limit_fault_on_search_j_configured": st.faults_configured,
+            "limit_fault_on_search_j_fired": st.faults_fired,
+            "configured_not_fired": st.faults_configured - st.faults_fired,
+            "fired_on_a_search_feeding_a_replacement": st.fault_on_replaced_match,
+            "fired_on_the_search_one_past_the_limit": st.fault_on_lookahead_match,
+        }));
+        extra.insert("logical_time".into(), json!({"vm_instructions": st.vm_insns}));
+        extra.insert("probes".into(), json!({
+            "borrowed_results": st.borrowed_results,
+            "owned_results": st.owned_results,
+            "replacer_kind_equivalence_groups": st.equivalence_groups,
+            "panicking_wrappers_compared": st.wrappers_compared,
+        }));
+        extra.insert("runs_per_hour".into(), json!(((st.calls as f64) / wall.max(1e-9) * 3600.0) as u64));
+        extra.insert("seeds".into(), json!(format!("derive({}, 0..{})", seed, results.len())));
+        extra.insert("real_vs_stub".into(), json!({
+            "real": ["Regex::try_replacen / replace / replacen / replace_all", "Replacer impls (closures, &str, String, Cow, NoExpand)", "find_iter / captures_iter", "vm::run", "regex-automata"],
+            "model": ["executable replace model (sim/src/c11.rs model) over the fault-free match sequence; expands only $$, ${N}, ${name} itself"],
+            "stubbed": ["limits of search #j overridden through the H2 hook"],
+        }));
+        Evidence {
+            property: PROP.into(),
+            tier: opts.tier,
+            seed,
+            level: "exploration",
+            evaluations: st.calls,
+            distinct_nontrivial: nt.len() as u64,
+            rule: "call = (pattern, text <= 8 chars, limit 0..3, replacer kind, entry point), fault-free and with a limit fault on search #j of the call (first/last/random; below and at that search's thresholds); non-trivial = at least one match to replace or a fired fault; distinct by hash of (pattern, text, n, replacer)".into(),
+            samples,
+            extra,
+            assumptions: vec![
+                "find_iter / captures_iter sequences (C08) and single searches are trusted".into(),
+                "template parsing beyond well-formed $$, ${N}, ${name} tokens is C12's and not decided".into(),
+            ],
+            wall_s: wall,
+            violations,
+        }
+        .write();
+    }
+    println!(
+        "C11 {}: {} replace calls, {} compared with the model, {} faults fired of {} configured, {} distinct non-trivial, {:.1}s",
+        opts.tier.name(), st.calls, st.model_compared, st.faults_fired, st.faults_configured, nt.len(), wall
+    );
+    code
+}
